@@ -194,3 +194,11 @@ class OptimizeResult(dict):
         if key not in self:
             self[key] = default
         return self[key]
+
+    def __ior__(self, other):
+        self.update(other)
+        return self
+
+    def __setattr__(self, name: str, val: object):
+        # (as in scipy's OptimizeResult: attribute and item assignment agree)
+        self[name] = val
